@@ -247,6 +247,8 @@ def jobs(tier):
             add(op, 2, 2, 'O', miss='tag')
             add(op, 2, 1, 'M')
             add(op, 1, 2, 'M')
+            add(op, 2, 1, 'X')
+            add(op, 1, 2, 'X')
             add(op, 2, 1, 'Od2', compound=True)
             add(op, 1, 2, 'Od2', compound=True)
             add(op, 2, 1, 'O', ragged=True, miss='tag')
@@ -262,6 +264,7 @@ def jobs(tier):
             add(op, 2, 2, 'M')
             add(op, 3, 1, 'M')
             add(op, 1, 3, 'M')
+            add(op, 2, 2, 'X')
             add(op, 2, 2, 'Od2', compound=True)
             add(op, 2, 2, 'O', ragged=True, miss='tag')
             add(op, 2, 2, 'O', ragged=True)
